@@ -170,6 +170,10 @@ def run_history(e3, name, steps, expect_fn):
         os.makedirs(os.path.join(REPLAYS, "C07"), exist_ok=True)
         pp = os.path.join(REPLAYS, "C07", f"{name}.{ob.name.split(':')[1]}.plan")
         open(pp, "w").write(replay_e3.plan_text(name, ob.name.split(":")[1], {}, [], {k: v for k, v in inputs.items() if v >= 0}))
+        if "one_write_lock" in ob.name:
+            # the sequential encoding shows the drain touching the bucket / the distribution outside the lock; natively this is
+            # exhibited by a render() that runs between another drainer's detach and its merge
+            open(pp, "w").write("scenario c07_lock\nviolated %s\nthread 1 upkeep\nthread 2 render\nsched 1 2 2 2 1\n" % ob.name.split(":")[1])
         status, out = replay_e3.run("c07", pp)
         ob.detail += f" | native replay (c07, public recorder/handle API + strict parser): {status}"
         ob.sample["native_replay"] = {"status": status, "output": out[-500:]}
